@@ -209,7 +209,7 @@ def gen_batch(rng, trx, sites_of, case_kind=None):
             t = deepcopy(src)
             te = t['path-constraints']['te-bandwidth']
             ero = t.get('explicit-route-objects', {}).get('route-object-include-exclude')
-            how = G.pick(rng, ['hops', 'hops', 'mode', 'spacing', 'power', 'nb', 'route', 'bidir'])
+            how = G.pick(rng, ['hops', 'hops', 'mode', 'spacing', 'power', 'nb', 'route', 'bidir', 'tx_power', 'tx_power'])
             if how == 'hops' and not ero:
                 how = 'route'
             if how == 'route' and not sites_of:
@@ -235,9 +235,24 @@ def gen_batch(rng, trx, sites_of, case_kind=None):
                 te['max-nb-of-channel'] = G.pick(rng, [n for n in (10, 20, 40, 60) if n != te['max-nb-of-channel']])
             elif how == 'bidir':
                 t['bidirectional'] = not t['bidirectional']
+            elif how == 'tx_power':
+                # the power at the transceiver output only (the launch power into the spans is the same): below the
+                # add ROADM's target the channel enters the line weaker
+                te['tx_power'] = G.pick(rng, [1e-6, 3e-6, 1e-5])     # (not the default: that would be the same request)
+                if src['path-constraints']['te-bandwidth'].get('tx_power') == te['tx_power']:
+                    te['tx_power'] = 2e-6
             t['request-id'] = f'r{len(reqs)}'
             te['path_bandwidth'] = 100e9 + len(reqs) * 1e9
             t['_kind'] = f'twin-{how}:' + src['_kind']
+
+            def key(r):
+                te_ = {k: v for k, v in r['path-constraints']['te-bandwidth'].items()
+                       if k not in ('path_bandwidth', 'effective-freq-slot')}
+                return json.dumps([r['source'], r['destination'], r['bidirectional'], r.get('explicit-route-objects'), te_],
+                                  sort_keys=True)
+            if key(t) != key(src):
+                # (a draw may reproduce the model, e.g. the same route list: then the two ARE identical requests)
+                t['_twin_of'] = src['request-id']
             # the twin comes right after its model, right before it, or anywhere
             pos = G.pick(rng, [reqs.index(src) + 1, reqs.index(src), rng.randint(0, len(reqs))])
             reqs.insert(pos, t)
@@ -255,6 +270,7 @@ def run_case(case, ctx):
         trx, sites_of = sorted(model.roadm_of), model.roadm_of
     batch = gen_batch(rng, trx, sites_of, case['kind'])
     kinds = {r['request-id']: r.pop('_kind') for r in batch}
+    twin_of = {r['request-id']: r.pop('_twin_of') for r in batch if '_twin_of' in r}
     ids = [r['request-id'] for r in batch]
     sim = {}
     if case['kind'] == 'ggn':
@@ -352,6 +368,16 @@ def run_case(case, ctx):
                           {'example': {k: (a[k], b.get(k)) for k in diff[:1]}})
             ctx.dump.update({'topology': tj, 'batch': batch, 'order': order})
             return
+        for rq in rqs:
+            # a twin differs from its model in one respect that matters for the result: the two are two requests
+            members = rq.request_id.split(' | ')
+            for m in members:
+                if twin_of.get(m) in members:
+                    ctx.violation('twin-requests-aggregated', f'requests {twin_of[m]} and {m} ({kinds.get(m)}) were merged into '
+                                  f'one request ({rq.request_id}) although they differ')
+                    ctx.dump.update({'topology': tj, 'batch': batch, 'order': order})
+                    return
+        ctx.count('twin_aggregation_checks', len(twin_of))
         for rq, res in zip(rqs, result):
             s = strip(res.json)
             ctx.count('request_results_compared')
